@@ -88,6 +88,7 @@ file still type-checks.  (Adapted from harness/c11/translate.py; the control-flo
   request.environ / request.matchdict   the request q / q_matchdict q : option matchdict (None = no route matched)
   request.path_info          webob: environ['PATH_INFO'] (absent = KeyError) .encode('latin-1').decode('utf-8')
                              = q_path_info q / webob_path_info (Model/C02_base.v); only inside the try shape above
+  m.get(k) or d              omval_or (md_<k> m) d : d when the key is absent (None) or its value falsy   (k as below)
   m.get('traverse', d) / m.get('subpath', d)   md_get md_traverse m d / md_get md_subpath m d : a str or a tuple of str
                              (ASSUMPTION of the property: match dictionary values are str or tuples of str)
   is_nonstr_iter(v)          v is the tuple alternative (pyramid.util.is_nonstr_iter: shape-pinned)
@@ -118,6 +119,7 @@ TEXT, SEGS, SEGSOWN, INT, NODE, BOOL, TDICT, BYTES, ERASED, SELF, GETITEM, EXCV 
 REQ, ENVIRON, OPTMD, MD, MVAL, PRE, NODES = ('request', 'request.environ', 'matchdict or None', 'matchdict',
                                              'str or tuple (match dictionary value)', 'variables of the preamble',
                                              'lineage (resources)')
+OPTMVAL = 'match dictionary value or None'
 
 
 def RES(t):
@@ -628,6 +630,8 @@ class FnTranslator:
             bo, bt = self.value_expr(n.values[1], env)
             if ao is None or bo is None:
                 raise Problem('`or` on an unmodelled value: %s' % u(n))
+            if at == OPTMVAL and bt in (MVAL, TEXT, SEGS):
+                return A('omval_or', [ao, self.as_mval(bo, bt)]), MVAL
             if at == MVAL and bt in (MVAL, TEXT, SEGS):
                 return If(A('mval_falsy', [ao]), self.as_mval(bo, bt), ao), MVAL
             if at == TEXT and bt == TEXT:
@@ -1039,6 +1043,9 @@ class FnTranslator:
             xo, xt = self.expr(n.func.value, env)
             if xo is None:
                 raise Problem('method call on an unmodelled value: %s' % u(n))
+            if meth == 'get' and xt == MD and len(n.args) == 1 and isinstance(n.args[0], ast.Constant) \
+                    and n.args[0].value in MD_KEYS:
+                return A(MD_KEYS[n.args[0].value], [xo]), OPTMVAL
             if meth == 'get' and xt == MD and len(n.args) == 2 and isinstance(n.args[0], ast.Constant) \
                     and n.args[0].value in MD_KEYS:
                 do, dt = self.expr(n.args[1], env)
